@@ -59,6 +59,12 @@ macro_rules! hitem {
             #[cfg_attr(kani, kani::stub(pest::Stack::restore, crate::stubs::s_restore))]
         ] $name $body }
     };
+    ([T1 $($rest:ident)*] [$($attrs:tt)*] $name:ident $body:block) => {
+        $crate::hitem!{ [$($rest)*] [$($attrs)*
+            #[cfg_attr(kani, kani::stub(pest_typed::tracker::Tracker::get_entry, crate::stubs::t1_get_entry))]
+            #[cfg_attr(kani, kani::stub(pest_typed::tracker::Tracker::clear, crate::stubs::t1_clear))]
+        ] $name $body }
+    };
     ([F $($rest:ident)*] [$($attrs:tt)*] $name:ident $body:block) => {
         $crate::hitem!{ [$($rest)*] [$($attrs)*
             #[cfg_attr(kani, kani::stub(alloc::fmt::format, crate::stubs::f_format))]
@@ -72,10 +78,12 @@ pub mod refpeg;
 pub mod rel;
 pub mod c01;
 pub mod c03;
+pub mod c04;
 pub mod c05;
 pub mod c06;
 pub mod c06t;
 pub mod c08;
+pub mod c10;
 pub mod c12;
 pub mod c13;
 pub mod c19;
@@ -84,10 +92,12 @@ pub fn registry() -> Vec<(&'static str, &'static str, fn())> {
     let mut v = Vec::new();
     c01::register(&mut v);
     c03::register(&mut v);
+    c04::register(&mut v);
     c05::register(&mut v);
     c06::register(&mut v);
     c06t::register(&mut v);
     c08::register(&mut v);
+    c10::register(&mut v);
     c12::register(&mut v);
     c13::register(&mut v);
     c19::register(&mut v);
